@@ -1,4 +1,5 @@
-\* quick smoke configuration: bool and u8 exhaustive pools, all model facts incl. the full-range region lemma
+\* default configuration (smoke run by hand): the bool and u8 exhaustive pools with every model fact;
+\* checks/C14.py writes one such configuration per pool piece (Sel, NRand, SliceK, SliceR, FullLemma) into work/C14
 CONSTANT Sel = {"x_bool", "x_u8"}
 CONSTANT NRand = 10
 CONSTANT SliceK = 1
